@@ -5,7 +5,10 @@ import (
 	"go/ast"
 	"go/token"
 	"go/types"
+	"golang.org/x/tools/go/ssa"
 	"sort"
+	"strings"
+	"verifsa/internal/paths"
 
 	"verifsa/internal/core"
 	"verifsa/internal/load"
@@ -76,6 +79,10 @@ func runC10(c *core.Ctx) {
 		respRule(c, t, byNamed)
 	}
 	dispatchRule(c, all, byNamed)
+	peekRule(c)
+	// the offsets compared above are offsets into bytes the caller owns: Writer.Bytes/BytesWithLength return a fresh copy
+	c.MinInstances("C10-PRIM", 2)
+	importRules(c, "C20", "C10-PRIM", func(o core.Obligation) bool { return o.Rule == "C20-TERMINAL" || o.Rule == "C20-WHO" })
 	literalRule(c, byNamed)
 }
 
@@ -619,4 +626,61 @@ func ownerType(info *types.Info, fd *ast.FuncDecl, byNamed map[*types.TypeName]*
 		return byNamed[n.Obj()]
 	}
 	return nil
+}
+
+// peekRule: the header peek that every dispatcher runs before its switch may refuse a frame only because it is shorter
+// than a header. Any refusal that depends on the header's content (a sequence range, a status value ...) makes the
+// dispatcher reject PDUs that the package's own encoders produce.
+func peekRule(c *core.Ctx) {
+	c.MinInstances("C10-PEEK", 4)
+	for _, rel := range []string{"smpp", "cmpp", "smgp", "sgip"} {
+		key := rel + ".PeekHeader"
+		fn := c.Prog.SSAFunc(c.Prog.LookupFunc(rel, "PeekHeader"))
+		if fn == nil {
+			c.Broken("C10-PEEK", key, "function not found")
+			continue
+		}
+		pos := c.Prog.Pos(fn.Pos())
+		ps, err := paths.Enumerate(fn, paths.Config{})
+		if err != nil {
+			c.Unknown("C10-PEEK", key, pos, "path enumeration failed: "+err.Error())
+			continue
+		}
+		var problems []string
+		nOK := 0
+		for _, p := range ps {
+			if len(p.Results) != 2 {
+				problems = append(problems, "unexpected result arity")
+				continue
+			}
+			refused := !paths.IsNilConst(p.Results[1])
+			if !refused {
+				nOK++
+			}
+			for _, e := range p.Events {
+				if e.Kind != paths.EvBranch {
+					continue
+				}
+				lenOnly := false
+				if bo, ok := e.Cond.(*ssa.BinOp); ok {
+					for _, pair := range [][2]ssa.Value{{bo.X, bo.Y}, {bo.Y, bo.X}} {
+						if call, ok := pair[0].(*ssa.Call); ok {
+							if bi, ok := call.Call.Value.(*ssa.Builtin); ok && bi.Name() == "len" && call.Call.Args[0] == ssa.Value(fn.Params[0]) {
+								if _, isK := pair[1].(*ssa.Const); isK {
+									lenOnly = true
+								}
+							}
+						}
+					}
+				}
+				if !lenOnly {
+					problems = append(problems, "a branch on "+proposition(e)+" (not a length test): the header peek accepts or refuses frames by their content")
+				}
+			}
+		}
+		if nOK == 0 {
+			problems = append(problems, "no accepting path")
+		}
+		c.Decide(len(problems) == 0, "C10-PEEK", key, pos, fmt.Sprintf("%d paths, refusal only by len(buf) < header size", len(ps)), strings.Join(dedup(problems), "; "))
+	}
 }
